@@ -19,6 +19,7 @@ use std::str::FromStr;
 pub const DERIVE_POOL: &[&str] = &["PartialEq", "Eq", "Hash", "oasgen::OaSchema", " serde_valid::Validate ", "fake::Dummy", "a::b::C", "not a (path", "\"unterminated", "PartialEq", "unclosed [", "]"];
 pub const SERVICE_NAMES: &[&str] = &["PetStore", "petstore", "Pet Store", "acme_corp", "HTTPBin", "Api2Go", "my-service", "X"];
 
+#[derive(Clone)]
 pub struct EmitCase { pub label: String, pub doc: Value, pub cfg: Cfg, pub features: Vec<String> }
 
 pub fn cfg_sexp(cfg: &Cfg) -> String {
@@ -52,7 +53,18 @@ pub fn only_case() -> Option<EmitCase> {
 }
 
 pub fn gen_cases(prop: &str, tier: &str, seed: u64, rep: &mut Report) -> Vec<EmitCase> {
-    if let Some(c) = only_case() { return vec![c]; }
+    // a replayed document is taken through every prior-state variant of the emit stage
+    if let Some(c) = only_case() {
+        let mut out = vec![c.clone()];
+        for v in ["regenerated_with_marker", "regenerated_over_an_earlier_revision", "regenerated_over_a_same_length_copy"] {
+            if c.features.iter().any(|f| f == v) { continue; }
+            let mut d = c.clone();
+            d.features.push(v.to_string());
+            d.label = format!("{} (variant {v})", d.label.trim_end_matches(')')) + ")";
+            out.push(d);
+        }
+        return out;
+    }
     let thorough = tier == "thorough";
     let mut cases = vec![];
     let mut add_file = |f: &str, cfg: Cfg, cases: &mut Vec<EmitCase>| {
